@@ -55,9 +55,53 @@ fn driver_cross_check(rep: &Report) {
             }
         }
     }
+    // repeated activation: the same jump instruction (inside a procedure) is reached several times in one run,
+    // from a sequence of flag/CX states; placement 3 = LOOP family on its own line, 4 = any condition, target ahead.
+    // The `cx` slot carries the index of the state sequence.
+    const CX_SEQS: [&[u16]; 6] = [&[2, 2], &[1, 2], &[3, 2], &[2, 3, 2], &[4, 1, 2, 2], &[1, 1]];
+    for j in ALL_JCC {
+        if j == Jcc::Jmp {
+            continue;
+        }
+        let loopfam = matches!(j, Jcc::Loop | Jcc::Loope | Jcc::Loopne);
+        for flags in [0u16, ZF, CF, SF | OF, ZF | CF, 0x0ED5 & !TF] {
+            if loopfam {
+                for k in 0..CX_SEQS.len() {
+                    jobs.push((j, 3, flags, k as u16));
+                }
+            }
+            jobs.push((j, 4, flags, 0));
+            jobs.push((j, 4, flags, 1));
+        }
+    }
     let n = jobs.len();
     par_for(n, 2, |i| {
         let (j, placement, flags, cx) = jobs[i];
+        if placement >= 3 {
+            let ins = |x: Ins| Item::Ins(x);
+            let mov16 = |r: R16, v: u16| Item::Ins(Ins::Mov(Loc::R16(r), Src::Imm(v)));
+            let body = if placement == 3 {
+                vec![Item::Label("here".into()), ins(Ins::J(j, "here".into())), ins(Ins::Alu2(Alu2::Add, Loc::R16(R16::BX), Src::Imm(1)))]
+            } else {
+                vec![ins(Ins::J(j, "fwd".into())), ins(Ins::Alu2(Alu2::Add, Loc::R16(R16::BX), Src::Imm(1))), Item::Label("fwd".into()), ins(Ins::Alu2(Alu2::Add, Loc::R16(R16::DX), Src::Imm(1)))]
+            };
+            let mut items = vec![Item::Proc("act".into(), body), Item::Label("start".into()), mov16(R16::BX, 0), mov16(R16::DX, 0)];
+            let states: Vec<(u16, u16)> = if placement == 3 {
+                CX_SEQS[cx as usize].iter().map(|c| (flags, *c)).collect()
+            } else if cx == 0 {
+                vec![(flags, 3), (0, 3), (flags, 3), (flags, 0)]
+            } else {
+                vec![(0, 0), (flags, 2), (flags, 2), (!flags & 0x08D5, 2)]
+            };
+            for (f, c) in &states {
+                items.extend(vec![mov16(R16::AX, *f), ins(Ins::Push(Loc::R16(R16::AX))), ins(Ins::Simple("popf")), mov16(R16::CX, *c), ins(Ins::Call("act".into()))]);
+            }
+            items.push(mov16(R16::SI, 77));
+            let p = Program { data: vec![], items };
+            let text = p.render_plain().text;
+            crate::c08::check_program_sig(rep, &p, &text, Some(format!("jcc-driver|{}|{}|{:04x}|{}", j.name(), placement, flags, cx)), true, ["", "", "", "same-jump-reached-again", "same-jump-reached-again"][placement], 600, 4000, &format!("jcc-driver:{}", j.name()));
+            return;
+        }
         let ins = |x: Ins| Item::Ins(x);
         let mov16 = |r: R16, v: u16| Item::Ins(Ins::Mov(Loc::R16(r), Src::Imm(v)));
         let mut items = vec![Item::Label("start".into()), mov16(R16::AX, flags), ins(Ins::Push(Loc::R16(R16::AX))), ins(Ins::Simple("popf")), mov16(R16::CX, cx), mov16(R16::BX, 0)];
